@@ -377,18 +377,36 @@ func (l *SingleLockedMap[K, V]) Len() int {
 }
 
 func (l *SingleLockedMap[K, V]) Empty() {
-	l.l.Lock()
-	defer l.l.Unlock()
-
-	clear(l.m)
+	_ = l.emptyLen()
 }
 
 func (l *SingleLockedMap[K, V]) Close() {
+	_ = l.closeLen()
+}
+
+// emptyLen empties and returns the number of the removed.
+func (l *SingleLockedMap[K, V]) emptyLen() int64 {
 	l.l.Lock()
 	defer l.l.Unlock()
 
+	n := int64(len(l.m))
+
+	clear(l.m)
+
+	return n
+}
+
+// closeLen closes and returns the number of the removed.
+func (l *SingleLockedMap[K, V]) closeLen() int64 {
+	l.l.Lock()
+	defer l.l.Unlock()
+
+	n := int64(len(l.m))
+
 	clear(l.m)
 	l.m = nil
+
+	return n
 }
 
 func (l *SingleLockedMap[K, V]) Map() (m map[K]V) {
@@ -732,36 +750,83 @@ func (l *ShardedMap[K, V]) Len() int {
 	return int(atomic.LoadInt64(&l.length))
 }
 
+// Close closes all the sharded maps. The length is decreased by the number of
+// the removed instead of being reset; the length update of the operation, which
+// is still running in the sharded map is not lost.
 func (l *ShardedMap[K, V]) Close() {
+	atomic.AddInt64(&l.length, -l.closeLen())
+}
+
+// Empty empties all the sharded maps. The length is decreased by the number of
+// the removed like Close.
+func (l *ShardedMap[K, V]) Empty() {
+	atomic.AddInt64(&l.length, -l.emptyLen())
+}
+
+func (l *ShardedMap[K, V]) closeLen() int64 {
 	l.l.Lock()
 	defer l.l.Unlock()
+
+	var n int64
 
 	for i := range l.sharded {
 		if l.sharded[i] == nil {
 			continue
 		}
 
-		l.sharded[i].Close()
+		n += closeLockedMap(l.sharded[i])
 	}
 
 	clear(l.sharded)
 	l.sharded = nil
-	atomic.StoreInt64(&l.length, 0)
+
+	return n
 }
 
-func (l *ShardedMap[K, V]) Empty() {
+func (l *ShardedMap[K, V]) emptyLen() int64 {
 	l.l.Lock()
 	defer l.l.Unlock()
+
+	var n int64
 
 	for i := range l.sharded {
 		if l.sharded[i] == nil {
 			continue
 		}
 
-		l.sharded[i].Empty()
+		n += emptyLockedMap(l.sharded[i])
 	}
 
-	atomic.StoreInt64(&l.length, 0)
+	return n
+}
+
+type lockedMapResetter interface {
+	emptyLen() int64
+	closeLen() int64
+}
+
+func emptyLockedMap[K cmp.Ordered, V any](m LockedMap[K, V]) int64 {
+	if i, ok := m.(lockedMapResetter); ok {
+		return i.emptyLen()
+	}
+
+	n := int64(m.Len())
+
+	m.Empty()
+
+	return n
+}
+
+func closeLockedMap[K cmp.Ordered, V any](m LockedMap[K, V]) int64 {
+	if i, ok := m.(lockedMapResetter); ok {
+		return i.closeLen()
+	}
+
+	n := int64(m.Len())
+
+	m.Close()
+
+	return n
 }
 
 func (l *ShardedMap[K, V]) loadItem(k interface{}) (_ LockedMap[K, V], found, iscloed bool) {
